@@ -188,6 +188,44 @@ func (x *runner) newBlock(step int) *Block {
 }
 
 func (x *runner) mine(step int, order []*Tx, b *Block, forcePath *bool) {
+	// the wallet records a block's relevant transactions in ONE database
+	// transaction: a third of the blocks with more than one transaction are
+	// delivered that way (judged once, after the whole block)
+	if len(order) > 1 && !x.cfg.FaultSweep && x.r.Intn(3) == 0 {
+		x.ev("block %d blk=%s: %d transactions recorded in one database transaction", b.Height, b.Hash.String()[:8], len(order))
+		for _, t := range order {
+			x.ev("mine %s @%d blk=%s cb=%v ins=[%s] credits=[%s]", t.Short(), b.Height, b.Hash.String()[:8], t.Coinbase, insStr(t), credStr(t))
+		}
+		err := x.st.Update(func(ns walletdb.ReadWriteBucket) error {
+			for _, t := range order {
+				if err := x.st.InsertIn(ns, t, b); err != nil {
+					return err
+				}
+			}
+			return nil
+		})
+		if err != nil {
+			x.fail(err, "InsertTx(mined, whole block)")
+			return
+		}
+		for _, t := range order {
+			if k, ok := x.m.Known[t.Hash]; ok && k.Height == -1 {
+				x.hit("unmined-became-mined", 1)
+			}
+			if rm := x.m.ApplyConfirm(t, b); rm > 0 {
+				x.hit("conflict-removed-txs", rm)
+				*forcePath = true
+			}
+			if t.Coinbase {
+				x.hit("coinbase-mined", 1)
+			}
+		}
+		x.hit("blocks-recorded-in-one-database-transaction", 1)
+		if d := x.check(false); d != nil {
+			x.res.Diff = d
+		}
+		return
+	}
 	for _, t := range order {
 		x.ev("mine %s @%d blk=%s cb=%v ins=[%s] credits=[%s]", t.Short(), b.Height, b.Hash.String()[:8], t.Coinbase, insStr(t), credStr(t))
 		if err := x.sweep("insert-mined", func() error { return x.st.Insert(t, b) }); err != nil {
